@@ -13,7 +13,7 @@ import gc
 import sys
 import warnings
 
-from rig.machine_control.machine_controller import MemoryIO, TruncationWarning
+from rig.machine_control.machine_controller import MachineController, MemoryIO, TruncationWarning
 
 
 class TransportError(Exception):
@@ -27,7 +27,12 @@ class FakeController(object):
         self.attempts = []
         self.fail_next = False
 
+    def args(self, *xyp):
+        if xyp != ((1, 2, 0) if len(xyp) == 3 else (1, 2)):
+            self.log.append(["args"] + [repr(a) for a in xyp])      # not the chip / core the view was made for
+
     def read(self, address, length, x, y, p=0):
+        self.args(x, y, p)
         if self.fail_next:
             self.fail_next = False
             self.attempts.append(["r", address, length])
@@ -36,6 +41,7 @@ class FakeController(object):
         return bytes(bytearray(self.mem.get(address + i, 0) for i in range(length)))
 
     def write(self, address, data, x, y, p=0):
+        self.args(x, y, p)
         data = bytes(data)
         if self.fail_next:
             self.fail_next = False
@@ -46,6 +52,7 @@ class FakeController(object):
             self.mem[address + i] = b
 
     def sdram_free(self, address, x=None, y=None):
+        self.args(x, y)
         if self.fail_next:
             self.fail_next = False
             self.attempts.append(["f", address])
@@ -91,7 +98,26 @@ def leave(gen, exc):
 
 def run_case(c):
     mc = FakeController(c["lo"], c["mem"])
-    views = [MemoryIO(mc, 1, 2, c["start"], c["end"])]
+    if c.get("via") == "filelike":
+        # through the entry point: a real MachineController (no traffic: its transport methods are the fake's)
+        # whose sdram_alloc returns the block
+        real = MachineController("127.0.0.1")
+        asked = []
+        real.sdram_alloc = lambda size, tag, x, y, app_id, clear: (asked.append([size, tag, x, y, app_id, clear]),
+                                                                   c["start"])[1]
+        real.read, real.write, real.sdram_free = mc.read, mc.write, mc.sdram_free
+        if c.get("context"):
+            with real(x=1, y=2, app_id=77):
+                root = real.sdram_alloc_as_filelike(c["end"] - c["start"], tag=3)
+            want = [c["end"] - c["start"], 3, 1, 2, 77, False]
+        else:
+            root = real.sdram_alloc_as_filelike(c["end"] - c["start"], x=1, y=2, app_id=30)
+            want = [c["end"] - c["start"], 0, 1, 2, 30, False]
+        if asked != [want] or type(root) is not MemoryIO:
+            return ["ok", [[["other", "sdram_alloc called with %r" % (asked,)], 0, [], None, []]] * len(c["ops"]), c["mem"], []]
+        views = [root]
+    else:
+        views = [MemoryIO(mc, 1, 2, c["start"], c["end"])]
     blocks = {}                         # view number -> stack of open with-statements
     last_exc = nv = g = gen = None
     out = []
